@@ -8,6 +8,10 @@ import glob, json, os, shutil, sys
 OUT = "/verif/seeded"
 # what happened before the result recorded below (the earlier screening results were overwritten by the later ones)
 HISTORY = {
+    "C03-r5m1": "missed on its first screening (no escape alphabet contained a multi-byte character); detected after the alphabet EscapesU was added",
+    "C17-r5m2": "missed on its first screening (no scanner alphabet contained a carriage return); detected after the alphabet Lines was added",
+    "C06-r5m1": "missed on its first screening (the second closure over a captured variable was always created while that variable was the head of the open list); detected after the capture-order product got its late re-capture",
+    "C19-r5m1": "detected on its first screening (exact expansions of six boundary numbers); the printed-text-as-literal layer was added afterwards to make the detection independent of those",
     "C13-r5m1": "missed by C13 on its first screening (number <-> text was left to C19); C13 now runs the boundary / random / short-text parts of NumFormat.tla itself",
     "C11-r5m3": "the description was read before its screening: StrIdent.tla had no length above 100; lengths 255-257, 1024, 4097 were added first",
     "C14-m3": "missed on its first screening (no scenario rebound a built-in name); detected after module_builtin_scenarios was added",
